@@ -281,7 +281,7 @@ def worker(cfg):
         n_loci = minc = maxc = None
         if cfg.get("n_loci"):
             n_loci = core.Int("n_loci")
-            ctx.assume(n_loci >= 0)
+            ctx.assume(s_and(n_loci >= 0, n_loci <= sum(sizes) + 1))      # larger caps behave like sum(sizes) + 1
             kw["n_loci"] = n_loci
         if cfg.get("counts"):
             minc, maxc = core.Real("min_counts"), core.Real("max_counts")
@@ -300,7 +300,7 @@ def worker(cfg):
                 raise
             m = ctx.model() if ctx.check() == z3.sat else None
             # numpy.stack of an empty list is the documented behaviour when nothing is kept
-            if "need at least one array" in str(e) or not [l for l in log if l[0] == "seq"]:
+            if "need at least one array" in str(e):
                 return "raised"
             add("extract_loci:raises", "extract_loci raised %s: %s" % (type(e).__name__, e), rp(m))
             return "raised"
